@@ -13,6 +13,7 @@ package net
 import (
 	"context"
 	"encoding/json"
+	"slices"
 	"time"
 
 	"github.com/fxamacker/cbor/v2"
@@ -635,7 +636,7 @@ func (p *Peer) retryReplicator(ctx context.Context, peerID string) {
 			log.ErrorContextE(ctx, "Failed to parse retry doc key", err)
 			continue
 		}
-		err = p.retryDoc(ctx, peerID, key.DocID)
+		pushedHeads, err := p.retryDoc(ctx, peerID, key.DocID)
 		if err != nil {
 			log.ErrorContextE(ctx, "Failed to retry doc", err)
 			err = p.handleCompletedReplicatorRetry(ctx, peerID, false)
@@ -645,7 +646,7 @@ func (p *Peer) retryReplicator(ctx context.Context, peerID string) {
 			// if one doc fails, stop retrying the rest and just wait for the next retry
 			return
 		}
-		err = datastore.PeerstoreFrom(p.db.Rootstore()).Delete(ctx, key.Bytes())
+		err = p.deleteRetryDocIfHeadsUnchanged(ctx, key, pushedHeads)
 		if err != nil {
 			log.ErrorContextE(ctx, "Failed to delete retry docID", err)
 		}
@@ -718,10 +719,43 @@ func (p *Peer) getHeads(ctx context.Context, docID string) ([]head, error) {
 	return heads, iter.Close()
 }
 
-func (p *Peer) retryDoc(ctx context.Context, peerIDString string, docID string) error {
-	clientTxn, err := p.db.NewTxn(ctx, false)
+// deleteRetryDocIfHeadsUnchanged removes the retry marker of a document after a successful retry,
+// unless the document has new heads since the retry read them: a write that happened meanwhile
+// and failed to reach the peer relies on the same marker.
+func (p *Peer) deleteRetryDocIfHeadsUnchanged(
+	ctx context.Context,
+	key keys.ReplicatorRetryDocIDKey,
+	pushedHeads []cid.Cid,
+) error {
+	// handleReplicatorFailure sets the marker under the same mutex
+	p.handleRetryMutex.Lock()
+	defer p.handleRetryMutex.Unlock()
+
+	clientTxn, err := p.db.NewTxn(ctx, true)
 	if err != nil {
 		return err
+	}
+	defer clientTxn.Discard(ctx)
+	txn := datastore.MustGetFromClientTxn(clientTxn)
+
+	heads, err := p.getHeads(datastore.CtxSetTxn(ctx, txn), key.DocID)
+	if err != nil {
+		return err
+	}
+	for _, head := range heads {
+		if !slices.Contains(pushedHeads, head.cid) {
+			// keep the marker, the new head will be pushed by the next retry
+			return nil
+		}
+	}
+	return datastore.PeerstoreFrom(p.db.Rootstore()).Delete(ctx, key.Bytes())
+}
+
+// retryDoc pushes the heads of the document to the peer and returns the heads it pushed.
+func (p *Peer) retryDoc(ctx context.Context, peerIDString string, docID string) ([]cid.Cid, error) {
+	clientTxn, err := p.db.NewTxn(ctx, false)
+	if err != nil {
+		return nil, err
 	}
 	defer clientTxn.Discard(ctx)
 	txn := datastore.MustGetFromClientTxn(clientTxn)
@@ -729,19 +763,20 @@ func (p *Peer) retryDoc(ctx context.Context, peerIDString string, docID string) 
 
 	heads, err := p.getHeads(ctx, docID)
 	if err != nil {
-		return err
+		return nil, err
 	}
 
+	pushedHeads := make([]cid.Cid, 0, len(heads))
 	for _, head := range heads {
 		select {
 		case <-ctx.Done():
-			return ErrContextDone
+			return nil, ErrContextDone
 		default:
 		}
 
 		rawblock, err := head.block.Marshal()
 		if err != nil {
-			return err
+			return nil, err
 		}
 
 		// The receiver identifies the collection by its collection ID, which differs from the
@@ -752,10 +787,10 @@ func (p *Peer) retryDoc(ctx context.Context, peerIDString string, docID string) 
 			IncludeInactive: immutable.Some(true),
 		})
 		if err != nil {
-			return err
+			return nil, err
 		}
 		if len(cols) == 0 {
-			return client.NewErrCollectionNotFoundForCollectionVersion(versionID)
+			return nil, client.NewErrCollectionNotFoundForCollectionVersion(versionID)
 		}
 
 		updateEvent := event.Update{
@@ -767,13 +802,14 @@ func (p *Peer) retryDoc(ctx context.Context, peerIDString string, docID string) 
 		}
 		peerID, err := peer.Decode(peerIDString)
 		if err != nil {
-			return err
+			return nil, err
 		}
 		if err := p.server.pushLog(updateEvent, peerID); err != nil {
-			return err
+			return nil, err
 		}
+		pushedHeads = append(pushedHeads, head.cid)
 	}
-	return nil
+	return pushedHeads, nil
 }
 
 // deleteReplicatorRetryIfNoMoreDocs deletes the replicator retry key if there are no more docs to retry.
